@@ -566,6 +566,24 @@ def _run_impl(line, extra=None):
             recs = [rec] if repeats == 1 else rec
             return repr(float(cap)) + " " + ";".join(",".join(repr(float(x)) for x in rr) for rr in recs)
         return render(*guarded(call, 120), fmt)
+    if op == "capr":
+        # the randomised call, seeded: everything (generator, start vectors, iteration) is inside the model
+        from fractions import Fraction
+        acc = s_acc(t[1])
+        level = (extra or {}).get("level")
+        if level is None or Fraction(float(10 ** level)) != Fraction(t[2]):
+            raise ValueError("capr line: tolerance does not match the level")
+        repeats, seed = int(t[4]), int(t[5])
+
+        def call():
+            np.random.seed(seed)
+            return GZ.approximate_capacity(acc, tolerance_level=level, repeats=repeats, maximum_iteration=int(t[3]), process=True)
+
+        def fmt(r):
+            cap, rec = r
+            recs = [rec] if repeats == 1 else rec
+            return float(cap).hex() + " " + ";".join(",".join(float(x).hex() for x in rr) for rr in recs)
+        return render(*guarded(call, 120), fmt)
     if op == "capf":
         # the same call as `cap`, reported bit for bit (float.hex): capacity, then the record of every repeat
         from fractions import Fraction
